@@ -17,7 +17,10 @@ from menpo.shape import PointCloud, TriMesh
 PROPERTY = "C04"
 RULE = (
     "Hypothesis draws (a) one of the 12 homogeneous-family classes in 2-D/3-D with bounded-condition parameters "
-    "(projective Homogeneous with divisor in [0.7, 1.3] on the probe points; alignments fitted to member(source)+noise) "
+    "(projective Homogeneous with divisor in [0.7, 1.3] on the probe points; alignments fitted to member(source)+noise; in 1/8 of the cases a plain Homogeneous H = w A1 P A2 whose homogeneous "
+    "coordinate is exchanged with a spatial one - A1, A2 well-conditioned affine, P a permutation moving the last "
+    "coordinate, bottom-right entries of H and inv(H) exactly 0 / 1e-12..1e-3 / generic, probes constructed so both "
+    "divisors are >= 0.2 of the row norm) "
     "and probe points x, y (closed-form classes also with integer-typed constructor arguments), plus a valid parameter "
     "vector of the class for pseudoinverse_vector; (a') the same 12 classes after 1-3 updates of an existing object "
     "(from_vector[_inplace], compose_{before,after}_inplace with a member of the family swallowed in place, set_target, "
@@ -31,6 +34,8 @@ RULE = (
     "more than 1% of the extent.  Distinct = distinct canonical-JSON digest of the case."
 )
 ASSUMPTIONS = [
+    "homogeneous matrices are compared as MAPS only (they are defined up to scale); the inverse's h_matrix is only "
+    "required to be finite",
     "the forward matrix of an alignment is read from t.h_matrix (its fit is C07's subject); plain classes use an "
     "independently assembled matrix; the reference inverse solves h z = (y,1) per point with numpy.linalg.solve",
     "class honesty is a predicate table on the inverse's h_matrix evaluated for every table class the inverse is an "
@@ -135,7 +140,104 @@ def s_int_params(draw, kind, d):
 _INT_KINDS = ("Translation", "NonUniformScale", "UniformScale", "Rotation")
 
 
+# ---- invertible homographies whose homogeneous coordinate mixes with the spatial ones: H = w * A1 . P . A2
+_TINY = [1e-12, 1e-9, 1e-6, 1e-3, -1e-12, -1e-9, -1e-6, -1e-3]
+
+
+@st.composite
+def s_affine_part(draw, d):
+    return {"mode": draw(st.sampled_from(["generic", "generic", "axis", "identity"])),
+            "lin": draw(gen.linear_case(d, smin=0.4, smax=2.5)),
+            "perm": draw(st.permutations(list(range(d)))),
+            "signs": draw(st.lists(st.sampled_from([-1, 1]), min_size=d, max_size=d)),
+            "s": draw(st.lists(st.sampled_from([0.5, 1.0, 2.0]), min_size=d, max_size=d)),
+            "v": draw(gen.vec(d, -4, 4))}
+
+
+def _entry(draw):
+    mode = draw(st.sampled_from(["zero", "zero", "tiny", "generic"]))
+    if mode == "zero":
+        return mode, 0.0
+    if mode == "tiny":
+        return mode, draw(st.sampled_from(_TINY))
+    return mode, draw(gen.q(-2, 2))
+
+
+@st.composite
+def s_mix_case(draw, d):
+    """Plain data of H = w * A1 . P . A2: A1, A2 well-conditioned affine, P a permutation of the d+1 homogeneous
+    coordinates that moves the last one.  H[d, d] = w * t2[perm[d]] and inv(H)[d, d] = -u[k] / w (perm[k] = d, t1 = L1 u)
+    are drawn exactly zero / tiny / generic."""
+    perm = draw(st.permutations(list(range(d + 1))).filter(lambda p: p[d] != d))
+    a1, a2 = draw(s_affine_part(d)), draw(s_affine_part(d))
+    j, k = perm[d], list(perm).index(d)
+    m_h, a2["v"][j] = _entry(draw)
+    m_i, a1["v"][k] = _entry(draw)
+    if draw(st.integers(0, 3)) == 0:  # no translations at all: structural zeros everywhere
+        a1["v"], a2["v"] = [0.0] * d, [0.0] * d
+        m_h = m_i = "zero"
+    return {"kind": "Homogeneous", "d": d,
+            "mix": {"perm": list(perm), "a1": a1, "a2": a2, "br_h": m_h, "br_inv": m_i},
+            "w": draw(st.sampled_from([1.0, 1.0, 2.5, 0.5, -2.0, 4.0]))}
+
+
+def _mix_lin(d, a):
+    if a["mode"] == "generic":
+        return gen.build_linear(d, a["lin"])
+    if a["mode"] == "identity":
+        return np.eye(d)
+    m = np.zeros((d, d))
+    for r in range(d):
+        m[r, a["perm"][r]] = a["signs"][r] * a["s"][r]
+    return m
+
+
+def _mix_parts(tc):
+    """(A1, P, A2) of a mixing case; A1's translation is L1 u (so that inv(A1) has translation -u), A2's is t2."""
+    d, mx = tc["d"], tc["mix"]
+    l1, l2 = _mix_lin(d, mx["a1"]), _mix_lin(d, mx["a2"])
+    a1 = rw.hm(l1, l1.dot(np.array(mx["a1"]["v"], dtype=float)))
+    a2 = rw.hm(l2, mx["a2"]["v"])
+    p = np.zeros((d + 1, d + 1))
+    for r in range(d + 1):
+        p[r, mx["perm"][r]] = 1.0
+    return a1, p, a2
+
+
+def _mix_h(tc):
+    a1, p, a2 = _mix_parts(tc)
+    return a1.dot(p).dot(a2) * float(tc["w"])
+
+
+def _mix_points(tc, zs):
+    """Probe points on which the divisor of H and (at their images) of inv(H) is bounded away from zero RELATIVE TO THE
+    ROW NORM: with z = A2 x the divisor of H is w z[j]; |z[j]| is placed in [0.2 |row j of A2|, 5 / |row k of inv(A1)|]
+    (non-empty: both norms are <= sqrt(2.5^2 + 2^2) < 4.47), so the divisor of inv(H) at H(x), 1 / (w z[j]), is >= 0.2 of
+    its row norm as well.  Constructed, not filtered."""
+    d, mx = tc["d"], tc["mix"]
+    a1, p, a2 = _mix_parts(tc)
+    j, k = mx["perm"][d], mx["perm"].index(d)
+    rn = float(np.linalg.norm(a2[j]))
+    rn1 = float(np.linalg.norm(np.concatenate([np.linalg.inv(a1[:d, :d])[k], [mx["a1"]["v"][k]]])))
+    lo, hi = 0.2 * rn, 5.0 / rn1
+    out = []
+    for z in zs:
+        z = np.array(z[:d], dtype=float)
+        m = abs(z[j]) / 4.0
+        z[j] = (1.0 if z[j] >= 0 else -1.0) * (lo * 1.05 + m * (hi * 0.95 - lo * 1.05))
+        out.append(np.linalg.solve(a2[:d, :d], z - a2[:d, d]))
+    return np.array(out)
+
+
+def _rel_divisors(h, x):
+    """|homogeneous divisor| of every point relative to the norm of the matrix's last row."""
+    h = np.asarray(h, dtype=float)
+    return np.abs(rw.divisors(h, x)) / float(np.linalg.norm(h[-1]))
+
+
 def _ref_h(tc):
+    if tc.get("mix") is not None:
+        return _mix_h(tc)
     ip = tc.get("int")
     if ip is None:
         return objs.ref_h(tc)
@@ -165,6 +267,8 @@ _FORMS = ["pointcloud", "pointcloud", "trimesh", "landmarked"]
 
 def _build(tc, src_form="pointcloud", tgt_form="pointcloud"):
     kind, d = tc["kind"], tc["d"]
+    if tc.get("mix") is not None:
+        return mt.Homogeneous(_mix_h(tc))
     ip = tc.get("int")
     if ip is not None:
         if kind == "Translation":
@@ -189,12 +293,15 @@ def _build(tc, src_form="pointcloud", tgt_form="pointcloud"):
 def s_homog(draw):
     tc = draw(objs.homog_case())
     d = tc["d"]
+    if draw(st.integers(0, 7)) == 0:
+        # a homography mixing the homogeneous coordinate with spatial ones; x / y then hold z = A2 x (see _mix_points)
+        tc = draw(s_mix_case(d))
     if tc["kind"] in _INT_KINDS and draw(st.integers(0, 4)) == 0:
         tc["int"] = draw(s_int_params(tc["kind"], d))
     return {
         "t": tc,
-        "x": draw(st.lists(gen.vec(d, -10, 10), min_size=1, max_size=6)),
-        "y": draw(st.lists(gen.vec(d, -10, 10), min_size=1, max_size=6)),
+        "x": draw(st.lists(gen.vec(d, -10, 10) if tc.get("mix") is None else gen.vec(d, -4, 4), min_size=1, max_size=6)),
+        "y": draw(st.lists(gen.vec(d, -10, 10) if tc.get("mix") is None else gen.vec(d, -4, 4), min_size=1, max_size=6)),
         # a parameter vector of the class, for pseudoinverse_vector (None: not vectorisable in this dimension)
         "pv": draw(s_param_vector(_base(tc["kind"]), d)),
     }
@@ -280,7 +387,7 @@ def _check_independent(ctx, t, inv, kind, x, fwd, atol):
                lambda: "%s: inverse taken, written to, inverse taken again\n%s" % (kind, describe(again, x)))
 
 
-def _check_pinv_vector(ctx, t, kind, d, v, x, tag):
+def _check_pinv_vector(ctx, t, kind, d, v, x, tag, mix=False):
     """VInvertible.pseudoinverse_vector: the parameters of the inverse of from_vector(v), in v's layout; receiver unchanged."""
     v = np.array(v, dtype=float)
     before = digest.digest(t)
@@ -299,7 +406,7 @@ def _check_pinv_vector(ctx, t, kind, d, v, x, tag):
     cv = rw.cond_h(hv)
     if cv > 1e5:
         return
-    if _base(kind) == "Homogeneous" and not np.all(rw.divisors(hv, x) / hv[d, d] > 0.25):
+    if _base(kind) == "Homogeneous" and not (np.all(_rel_divisors(hv, x) > 0.19) if mix else np.all(rw.divisors(hv, x) / hv[d, d] > 0.25)):
         ctx.event("pseudoinverse_vector: divisor near zero skipped")
         return
     ctx.event("pseudoinverse_vector checked (%s)" % tag)
@@ -330,7 +437,19 @@ def c_homog(case, ctx):
         return
     x = gen.arr(case["x"])
     y = gen.arr(case["y"])
-    if kind == "Homogeneous":
+    mix = tc.get("mix") is not None
+    if mix:
+        mx = tc["mix"]
+        ctx.event("mixing homography H = A1.P.A2 (%dD)" % d)
+        ctx.event("mixing: H[d,d] %s, inv(H)[d,d] %s" % (mx["br_h"], mx["br_inv"]))
+        ctx.event("mixing: H[d,d] == 0 exactly: %s; numpy inverse's [d,d] == 0 exactly: %s"
+                  % (bool(h[d, d] == 0), bool(np.linalg.inv(h)[d, d] == 0)))
+        x, xy = _mix_points(tc, case["x"]), _mix_points(tc, case["y"])
+        y = rw.apply_h(h, xy)
+        hi_ref = np.linalg.inv(h)
+        ok = all(bool(np.all(_rel_divisors(m, p) > 0.19)) for m, p in ((h, x), (h, xy), (hi_ref, y), (hi_ref, rw.apply_h(h, x))))
+        ctx.expect(ok, "harness.divisor_near_zero.mixing", "")
+    elif kind == "Homogeneous":
         # y must lie in the range of the domain: images of domain points (divisor of the inverse = 1/forward divisor)
         y = rw.apply_h(h, y)
         ctx.expect(bool(np.all(np.abs(rw.divisors(h, x) / h[d, d]) > 0.5)), "harness.divisor_near_zero", "")
@@ -345,6 +464,9 @@ def c_homog(case, ctx):
     tol = 1e-10 * cond * sc
     fwd = t.apply(x)
     ctx.nontrivial(declared and maxdiff(fwd, x) > 0.01 * 20)
+    hm_inv = np.asarray(getattr(inv, "h_matrix", np.zeros(1)), dtype=float)
+    ctx.expect(bool(np.all(np.isfinite(hm_inv))), "inverse_matrix_not_finite",
+               lambda: "%s cond=%.1f h=\n%s\ninverse:\n%s" % (kind, cond, np.array2string(h, precision=6), hm_inv))
     if declared:
         back = inv.apply(fwd)
         ctx.expect(close(back, x, rtol=0, atol=tol), "two_sided.inv_after_t",
@@ -377,7 +499,7 @@ def c_homog(case, ctx):
             except NotImplementedError:
                 v0 = None
             if v0 is not None:
-                _check_pinv_vector(ctx, t, kind, d, v0, x, "own_vector")
+                _check_pinv_vector(ctx, t, kind, d, v0, x, "own_vector", mix=mix)
         _check_independent(ctx, t, t.pseudoinverse(), kind, x, fwd, tol)
 
     # the inverse depends only on the CURRENT parameters: invert, re-parametrise (retarget an alignment / from_vector),
